@@ -166,6 +166,8 @@ struct Case {
     labels: Vec<usize>,             // position -> label (script identity)
     dup: bool,                      // some label occurs more than once
     force_commit: bool,             // emit the (large) trcommit line whatever its size
+    generic_leaves: bool,           // leaves are arbitrary fragments (shared dimension corpus): no renaming oracle
+    desc_reparse: bool,             // Descriptor::from_str accepts the printed descriptor (false: leaves only Tr::from_str accepts)
     leaves: Vec<Arc<Ms>>,           // by position
     tmpl: Vec<usize>,               // by label
     internal: Pk,
@@ -193,7 +195,7 @@ fn make_case(shape: Shape, keys: &mut Keys, rng: &mut Rng, vary: bool) -> Case {
     assert_eq!(by_script.len(), n, "leaf scripts must be pairwise distinct");
     let internal = keys.key(IK_BASE + rng.below(8));
     let text = shape.to_text();
-    Case { shape, pos_text: text.clone(), text, n, labels: (0..n).collect(), dup: false, force_commit: false, leaves, tmpl, internal, by_script, by_ms }
+    Case { shape, pos_text: text.clone(), text, n, labels: (0..n).collect(), dup: false, force_commit: false, generic_leaves: false, desc_reparse: true, leaves, tmpl, internal, by_script, by_ms }
 }
 
 /// a tree in which the leaf at position i carries script number labels[i] (labels may repeat)
@@ -221,7 +223,24 @@ fn make_dup_case(shape: Shape, labels: Vec<usize>, keys: &mut Keys, rng: &mut Rn
     let mut text = String::new();
     shape.text_labels(&labels, &mut 0, &mut text);
     let pos_text = shape.to_text();
-    Case { shape, text, pos_text, n, labels, dup, force_commit: false, leaves, tmpl, internal, by_script, by_ms }
+    Case { shape, text, pos_text, n, labels, dup, force_commit: false, generic_leaves: false, desc_reparse: true, leaves, tmpl, internal, by_script, by_ms }
+}
+
+/// a tree over arbitrary, pairwise distinct tapscript fragments (by position)
+fn make_case_leaves(shape: Shape, leaves: Vec<Arc<Ms>>, keys: &mut Keys, rng: &mut Rng) -> Case {
+    let n = shape.n_leaves();
+    assert_eq!(leaves.len(), n);
+    let mut by_script = HashMap::new();
+    let mut by_ms = HashMap::new();
+    for (id, ms) in leaves.iter().enumerate() {
+        by_script.insert(ms.encode(), id);
+        by_ms.insert(ms.to_string(), id);
+    }
+    assert_eq!(by_script.len(), n, "leaf scripts must be pairwise distinct");
+    let internal = keys.key(IK_BASE + rng.below(8));
+    let text = shape.to_text();
+    Case { shape, pos_text: text.clone(), text, n, labels: (0..n).collect(), dup: false, force_commit: false, generic_leaves: true, desc_reparse: true,
+           leaves, tmpl: vec![0; n], internal, by_script, by_ms }
 }
 
 /// bottom-up construction through the public `TapTree::combine`
@@ -506,14 +525,16 @@ fn run_case(out: &mut Out, c: &Case, keys: &Keys, class: &str) {
         let a: Vec<_> = back.leaves().map(|l| (l.depth(), l.miniscript().clone())).collect();
         let b: Vec<_> = tr.leaves().map(|l| (l.depth(), l.miniscript().clone())).collect();
         if a != b { return Err("leaves differ after round trip".into()); }
-        let d = Descriptor::<Pk>::from_str(&s).map_err(|e| format!("reparse desc {}", e))?;
-        if d != Descriptor::Tr(tr.clone()) { return Err("Descriptor differs after round trip".into()); }
+        if c.desc_reparse {
+            let d = Descriptor::<Pk>::from_str(&s).map_err(|e| format!("reparse desc {}", e))?;
+            if d != Descriptor::Tr(tr.clone()) { return Err("Descriptor differs after round trip".into()); }
+        }
         if back.spend_info().output_key() != tr.spend_info().output_key() { return Err("output key differs after round trip".into()); }
         Ok(())
     });
     out.line(&format!("J rustoracle string-roundtrip {} {}", shape, v), "ok");
     // (6) translate_pk with a renaming, and back
-    let v = verdict(|| {
+    let v = if c.generic_leaves { "pass".to_string() } else { verdict(|| {
         let named = tr.translate_pk(&mut ToName(&keys.names)).map_err(|_| "translate failed".to_string())?;
         let want_ik = keys.names.get(&c.internal).unwrap();
         if named.internal_key() != want_ik { return Err("internal key name".into()); }
@@ -526,11 +547,40 @@ fn run_case(out: &mut Out, c: &Case, keys: &Keys, class: &str) {
         let back = named.translate_pk(&mut FromName(&inv)).map_err(|_| "translate back failed".to_string())?;
         if back != tr { return Err("translate there and back".into()); }
         Ok(())
-    });
+    }) };
     out.line(&format!("J rustoracle translate {} {}", shape, v), "ok");
+    // (7) error propagation of translate_pk: a translator whose j-th call keeps the key (k), fails (f)
+    // or hands back an uncompressed key, which Tapscript refuses (u); slots: the leaves left to right,
+    // then the internal key.  The model (Tap.trTranslate) answers the same question.
+    if !c.dup && !c.generic_leaves && c.n <= 6 {
+        let mut act_sets: Vec<Vec<u8>> = vec![vec![b'k'; c.n + 1]];
+        for j in 0..=c.n { for a in [b'f', b'u'] { let mut v = vec![b'k'; c.n + 1]; v[j] = a; act_sets.push(v); } }
+        // two failures of different kinds: the FIRST one in translation order decides
+        if c.n >= 1 { for (i, j) in [(0, c.n), (c.n - 1, c.n), (0, c.n - 1)] { if i != j {
+            let mut v = vec![b'k'; c.n + 1]; v[i] = b'u'; v[j] = b'f'; act_sets.push(v.clone());
+            v[i] = b'f'; v[j] = b'u'; act_sets.push(v);
+        } } }
+        for acts in act_sets {
+            let ans = guard(|| {
+                let mut t = ActTranslator { acts: acts.clone(), idx: 0 };
+                match tr.translate_pk(&mut t) {
+                    Ok(tr2) => {
+                        let ds: Vec<String> = tr2.leaves().map(|l| {
+                            let id = l.miniscript().iter_pk().next().and_then(|k| keys.names.get(&XOnlyPublicKey::from(k.inner)).cloned()).map(|n| n[1..].to_string()).unwrap_or("?".into());
+                            format!("{}:{}", l.depth(), id)
+                        }).collect();
+                        format!("ok:{}", if ds.is_empty() { "-".to_string() } else { ds.join(",") })
+                    }
+                    Err(miniscript::TranslateErr::TranslatorErr(())) => "translator-err".into(),
+                    Err(miniscript::TranslateErr::OuterError(_)) => "outer-err".into(),
+                }
+            });
+            out.line(&format!("C trtranslate {} {}", depth_only(&tree), String::from_utf8(acts).unwrap()), &ans);
+        }
+    }
 
     // ---- byte-level judges: BIP341 commitment, scriptPubKey, addresses ------------------------
-    emit_byte_judges(out, secp, &tr, Some(&c.shape), &c.pos_text, c.internal, c.dup || c.force_commit);
+    emit_byte_judges(out, secp, &tr, Some(&c.shape), &c.pos_text, c.internal, c.dup || c.force_commit, &AllSigsX, c.generic_leaves);
 }
 
 /// a satisfier that has a (dummy) signature for every key in every leaf and satisfies every
@@ -543,6 +593,51 @@ impl<K: miniscript::MiniscriptKey + miniscript::ToPublicKey> miniscript::Satisfi
             sighash_type: miniscript::bitcoin::TapSighashType::Default,
         })
     }
+    fn check_older(&self, _: miniscript::bitcoin::relative::LockTime) -> bool { true }
+    fn check_after(&self, _: miniscript::bitcoin::absolute::LockTime) -> bool { true }
+}
+
+/// a translator XOnly -> bitcoin::PublicKey scripted per call: keep / fail / uncompressed
+struct ActTranslator { acts: Vec<u8>, idx: usize }
+impl Translator<Pk> for ActTranslator {
+    type TargetPk = miniscript::bitcoin::PublicKey;
+    type Error = ();
+    fn pk(&mut self, pk: &Pk) -> Result<miniscript::bitcoin::PublicKey, ()> {
+        let a = self.acts.get(self.idx).copied().unwrap_or(b'k');
+        self.idx += 1;
+        let inner = pk.public_key(miniscript::bitcoin::secp256k1::Parity::Even);
+        match a {
+            b'f' => Err(()),
+            b'u' => Ok(miniscript::bitcoin::PublicKey { inner, compressed: false }),
+            _ => Ok(miniscript::bitcoin::PublicKey::new(inner)),
+        }
+    }
+    translate_hash_fail!(Pk);
+}
+
+/// `AllSigs` for x-only keys, which also knows the shared tables' preimages and raw key hashes
+struct AllSigsX;
+fn dummy_sig() -> miniscript::bitcoin::taproot::Signature {
+    miniscript::bitcoin::taproot::Signature {
+        signature: miniscript::bitcoin::secp256k1::schnorr::Signature::from_slice(&[0x11; 64]).unwrap(),
+        sighash_type: miniscript::bitcoin::TapSighashType::Default,
+    }
+}
+fn preimage_of(kind: crate::ast::HK, h: &[u8]) -> Option<[u8; 32]> {
+    (0..8u32).find(|i| crate::ast::hash_value(kind, *i) == h).map(crate::ast::preimage)
+}
+impl miniscript::Satisfier<Pk> for AllSigsX {
+    fn lookup_tap_leaf_script_sig(&self, _: &Pk, _: &TapLeafHash) -> Option<miniscript::bitcoin::taproot::Signature> { Some(dummy_sig()) }
+    fn lookup_raw_pkh_x_only_pk(&self, h: &miniscript::bitcoin::hashes::hash160::Hash) -> Option<XOnlyPublicKey> {
+        (200..210u32).find(|i| crate::ast::raw_pkh(*i) == *h).map(crate::ast::xonly_key)
+    }
+    fn lookup_raw_pkh_tap_leaf_script_sig(&self, h: &(miniscript::bitcoin::hashes::hash160::Hash, TapLeafHash)) -> Option<(XOnlyPublicKey, miniscript::bitcoin::taproot::Signature)> {
+        (200..210u32).find(|i| crate::ast::raw_pkh(*i) == h.0).map(|i| (crate::ast::xonly_key(i), dummy_sig()))
+    }
+    fn lookup_sha256(&self, h: &miniscript::bitcoin::hashes::sha256::Hash) -> Option<[u8; 32]> { use miniscript::bitcoin::hashes::Hash; preimage_of(crate::ast::HK::Sha256, h.as_byte_array()) }
+    fn lookup_hash256(&self, h: &miniscript::hash256::Hash) -> Option<[u8; 32]> { use miniscript::bitcoin::hashes::Hash; preimage_of(crate::ast::HK::Hash256, h.as_byte_array()) }
+    fn lookup_ripemd160(&self, h: &miniscript::bitcoin::hashes::ripemd160::Hash) -> Option<[u8; 32]> { use miniscript::bitcoin::hashes::Hash; preimage_of(crate::ast::HK::Ripemd160, h.as_byte_array()) }
+    fn lookup_hash160(&self, h: &miniscript::bitcoin::hashes::hash160::Hash) -> Option<[u8; 32]> { use miniscript::bitcoin::hashes::Hash; preimage_of(crate::ast::HK::Hash160, h.as_byte_array()) }
     fn check_older(&self, _: miniscript::bitcoin::relative::LockTime) -> bool { true }
     fn check_after(&self, _: miniscript::bitcoin::absolute::LockTime) -> bool { true }
 }
@@ -567,9 +662,9 @@ fn oracle_root(s: &Shape, scripts: &[ScriptBuf], next: &mut usize) -> TapNodeHas
 /// every network, through Descriptor and through Tr), and libsecp's commitment check of every
 /// control block against the ORACLE's output key.  `ik` is the expected x-only internal key,
 /// obtained by the caller without the library.
-fn emit_byte_judges<K>(out: &mut Out, secp: &Secp256k1<miniscript::bitcoin::secp256k1::All>, tr: &Tr<K>,
-    shape: Option<&Shape>, pos_text: &str, ik: XOnlyPublicKey, force: bool)
-where K: miniscript::MiniscriptKey + miniscript::ToPublicKey {
+fn emit_byte_judges<K, S>(out: &mut Out, secp: &Secp256k1<miniscript::bitcoin::secp256k1::All>, tr: &Tr<K>,
+    shape: Option<&Shape>, pos_text: &str, ik: XOnlyPublicKey, force: bool, sat: &S, lenient: bool)
+where K: miniscript::MiniscriptKey + miniscript::ToPublicKey, S: miniscript::Satisfier<K> {
     let got = catch_unwind(AssertUnwindSafe(|| {
         let si = tr.spend_info();
         let mut scripts = vec![];
@@ -612,7 +707,7 @@ where K: miniscript::MiniscriptKey + miniscript::ToPublicKey {
     // the control block CHOSEN by the satisfier (all signatures available, no key-spend
     // signature): the witness ends with (script, control block); judged by the specification
     if let Some(root) = oroot {
-        let w = catch_unwind(AssertUnwindSafe(|| tr.get_satisfaction(&AllSigs)));
+        let w = catch_unwind(AssertUnwindSafe(|| tr.get_satisfaction(sat)));
         match w {
             Ok(Ok((wit, _))) if wit.len() >= 2 => {
                 out.line(&format!("J trwitness {} {} {} {} {}", root, hx(&ik.serialize()), par(opar),
@@ -627,7 +722,14 @@ where K: miniscript::MiniscriptKey + miniscript::ToPublicKey {
                     Ok(())
                 });
                 out.line(&format!("J rustoracle witness-choice {} {}", pos_text, v), "ok");
+                // tie-break: among the positions carrying the chosen script the shortest control block
+                if force || total <= COMMIT_BYTES {
+                    out.line(&format!("J trwitnessmin {} {} {} {}", pos_text,
+                        scripts.iter().map(|s| hx(s.as_bytes())).collect::<Vec<_>>().join(","),
+                        hx(&wit[wit.len() - 2]), hx(&wit[wit.len() - 1])), "ok");
+                }
             }
+            Ok(Err(_)) if lenient => out.count("observation: no satisfaction found for a tree of corpus fragments (all leaves need assets the harness satisfier lacks)"),
             Ok(Ok(_)) => out.line(&format!("J rustoracle witness-choice {} fail:short_witness", pos_text), "ok"),
             Ok(Err(e)) => out.line(&format!("J rustoracle witness-choice {} fail:{}", pos_text, e.to_string().replace(' ', "_")), "ok"),
             Err(_) => out.line(&format!("J rustoracle witness-choice {} fail:PANIC", pos_text), "ok"),
@@ -680,7 +782,7 @@ fn run_too_deep(out: &mut Out, c: &Case) {
         // renumber: build the two subtrees on fresh leaves 0..
         let sub = node(l.clone(), r.clone());
         let n = sub.n_leaves();
-        let cc = Case { shape: sub.clone(), text: sub.to_text(), pos_text: sub.to_text(), labels: (0..n).collect(), dup: false, force_commit: false, n, leaves: c.leaves[..n].to_vec(), tmpl: c.tmpl[..n].to_vec(),
+        let cc = Case { shape: sub.clone(), text: sub.to_text(), pos_text: sub.to_text(), labels: (0..n).collect(), dup: false, force_commit: false, generic_leaves: false, desc_reparse: true, n, leaves: c.leaves[..n].to_vec(), tmpl: c.tmpl[..n].to_vec(),
             internal: c.internal, by_script: c.by_script.clone(), by_ms: c.by_ms.clone() };
         let mut next = 0;
         if let (Ok(lt), Ok(rt)) = (build_combine(l, &cc, &mut next), build_combine(r, &cc, &mut next)) {
@@ -698,9 +800,26 @@ fn keyed_tree<K: miniscript::MiniscriptKey>(s: &Shape, leaves: &[Arc<Miniscript<
         Node(l, r) => { let a = keyed_tree(l, leaves, next)?; let b = keyed_tree(r, leaves, next)?; TapTree::combine(a, b).map_err(|_| ()) }
     }
 }
+/// a keyed leaf: template name as the Lean specification knows it (Spec/TapTemplates.lean), the
+/// key expressions as they appear in the descriptor text, and the key BYTES (33 or 32) they must
+/// denote, obtained without the library
+#[derive(Clone)]
+struct KLeaf { tmpl: &'static str, key_texts: Vec<String>, keys: Vec<Vec<u8>> }
+const KTEMPLATES: [(&str, usize); 4] = [("pk", 1), ("multi_a:2", 2), ("sortedmulti_a:1", 2), ("pkh_older:1", 1)];
+impl KLeaf {
+    fn text(&self) -> String {
+        let k = &self.key_texts;
+        match self.tmpl {
+            "pk" => format!("pk({})", k[0]),
+            "multi_a:2" => format!("multi_a(2,{},{})", k[0], k[1]),
+            "sortedmulti_a:1" => format!("sortedmulti_a(1,{},{})", k[0], k[1]),
+            _ => format!("and_v(v:pkh({}),older(1))", k[0]),
+        }
+    }
+}
 fn keyed_text(s: &Shape, leaf_keys: &[String], next: &mut usize, out: &mut String) {
     match s {
-        Leaf => { out.push_str(&format!("pk({})", leaf_keys[*next])); *next += 1; }
+        Leaf => { out.push_str(&leaf_keys[*next]); *next += 1; }
         Node(l, r) => { out.push('{'); keyed_text(l, leaf_keys, next, out); out.push(','); keyed_text(r, leaf_keys, next, out); out.push('}'); }
     }
 }
@@ -708,7 +827,7 @@ fn xonly_of(full: &[u8]) -> XOnlyPublicKey { XOnlyPublicKey::from_slice(&full[fu
 
 /// judge one `Tr<K>` whose internal key and `pk(K_i)` leaf keys the CALLER knows as bytes
 /// (33-byte compressed or 32-byte x-only), obtained without the library
-fn run_keyed<K>(out: &mut Out, keys: &Keys, class: &str, tr: &Tr<K>, shape: Option<&Shape>, ik_full: &[u8], leaf_full: &[Vec<u8>])
+fn run_keyed<K>(out: &mut Out, keys: &Keys, class: &str, tr: &Tr<K>, shape: Option<&Shape>, ik_full: &[u8], leaf_full: &[KLeaf])
 where K: miniscript::MiniscriptKey + miniscript::ToPublicKey + miniscript::FromStrKey {
     out.count(&format!("keyed:{}", class));
     out.count(&format!("internal-key-prefix:{}", match ik_full.len() { 33 => format!("{:02x}", ik_full[0]), _ => "x-only".into() }));
@@ -718,7 +837,9 @@ where K: miniscript::MiniscriptKey + miniscript::ToPublicKey + miniscript::FromS
     match scripts {
         Ok(scripts) if scripts.len() == leaf_full.len() => {
             for (k, sc) in leaf_full.iter().zip(scripts.iter()) {
-                out.line(&format!("J trleafpk {} {}", hx(k), hx(sc.as_bytes())), "ok");
+                out.count(&format!("keyed-leaf-template:{}", k.tmpl));
+                if k.tmpl == "pk" { out.line(&format!("J trleafpk {} {}", hx(&k.keys[0]), hx(sc.as_bytes())), "ok"); }
+                out.line(&format!("J trleafscript {} {} {}", k.tmpl, k.keys.iter().map(|x| hx(x)).collect::<Vec<_>>().join(","), hx(sc.as_bytes())), "ok");
             }
             // Tr::leaves (no spend info) computes the same scripts
             let v = verdict(|| {
@@ -730,7 +851,7 @@ where K: miniscript::MiniscriptKey + miniscript::ToPublicKey + miniscript::FromS
         Ok(scripts) => { out.line(&format!("J rustoracle keyed-leaf-count {}:{} fail:{}_of_{}", class, pos_text, scripts.len(), leaf_full.len()), "ok"); return; }
         Err(_) => { out.line(&format!("J rustoracle keyed-nopanic {}:{} fail:PANIC", class, pos_text), "ok"); return; }
     }
-    emit_byte_judges(out, &keys.secp, tr, shape, &pos_text, xonly_of(ik_full), true);
+    emit_byte_judges(out, &keys.secp, tr, shape, &pos_text, xonly_of(ik_full), true, &AllSigs, false);
     let v = verdict(|| {
         let s = tr.to_string();
         let back = Tr::<K>::from_str(&s).map_err(|e| format!("reparse {}", e))?;
@@ -742,17 +863,40 @@ where K: miniscript::MiniscriptKey + miniscript::ToPublicKey + miniscript::FromS
 }
 
 /// `Tr<bitcoin::PublicKey>` with the shared key table (ids 0..9 carry both parities)
-fn run_fullkey_case(out: &mut Out, keys: &Keys, shape: Option<&Shape>, ik: u32, leaf_ids: &[u32], class: &str) {
+/// pairs (a, b) of shared-table key ids with a = 03‖x, b = 02‖x' and x < x': sorting the X-ONLY
+/// keys puts a first, sorting the 33-byte encodings puts b first
+fn cross_parity_pairs() -> &'static Vec<(u32, u32)> {
+    static T: std::sync::OnceLock<Vec<(u32, u32)>> = std::sync::OnceLock::new();
+    T.get_or_init(|| {
+        let mut v = vec![];
+        for a in 0..100u32 { for b in 0..100u32 {
+            let (ka, kb) = (crate::ast::full_key(a).to_bytes(), crate::ast::full_key(b).to_bytes());
+            if ka[0] == 3 && kb[0] == 2 && ka[1..] < kb[1..] { v.push((a, b)); }
+        } }
+        v
+    })
+}
+/// the keyed leaf for template `t` whose first key is shared-table id `id`
+fn fullkey_leaf(t: usize, id: u32, salt: usize) -> KLeaf {
+    let (tmpl, nk) = KTEMPLATES[t % 4];
+    let ids: Vec<u32> = if tmpl == "sortedmulti_a:1" {
+        let pairs = cross_parity_pairs();
+        let (a, b) = pairs[(id as usize * 7 + salt) % pairs.len()];
+        if salt % 2 == 0 { vec![a, b] } else { vec![b, a] }
+    } else if nk == 2 { vec![id, (id + 41) % 100] } else { vec![id] };
+    KLeaf { tmpl, key_texts: ids.iter().map(|i| crate::ast::full_key(*i).to_string()).collect(),
+            keys: ids.iter().map(|i| crate::ast::full_key(*i).to_bytes()).collect() }
+}
+fn run_fullkey_case(out: &mut Out, keys: &Keys, shape: Option<&Shape>, ik: u32, leaf_ids: &[u32], tmpls: &[usize], class: &str) {
     use miniscript::bitcoin::PublicKey;
     let ikk = crate::ast::full_key(ik);
-    let lk: Vec<PublicKey> = leaf_ids.iter().map(|i| crate::ast::full_key(*i)).collect();
-    let leaf_full: Vec<Vec<u8>> = lk.iter().map(|k| k.to_bytes()).collect();
+    let leaf_full: Vec<KLeaf> = leaf_ids.iter().enumerate().map(|(p, i)| fullkey_leaf(tmpls.get(p).copied().unwrap_or(0), *i, p + ik as usize)).collect();
     let label = format!("{}:ik{}:{}", class, ik, leaf_ids.iter().map(|i| i.to_string()).collect::<Vec<_>>().join("."));
     // constructor 1: text
     let mut text = format!("tr({}", ikk);
     if let Some(s) = shape {
         text.push(',');
-        keyed_text(s, &lk.iter().map(|k| k.to_string()).collect::<Vec<_>>(), &mut 0, &mut text);
+        keyed_text(s, &leaf_full.iter().map(|k| k.text()).collect::<Vec<_>>(), &mut 0, &mut text);
     }
     text.push(')');
     let parsed = catch_unwind(AssertUnwindSafe(|| Tr::<PublicKey>::from_str(&text)));
@@ -761,8 +905,8 @@ fn run_fullkey_case(out: &mut Out, keys: &Keys, shape: Option<&Shape>, ik: u32, 
         let tree = match shape {
             None => None,
             Some(s) => {
-                let leaves: Vec<Arc<Miniscript<PublicKey, Tap>>> = lk.iter()
-                    .map(|k| Miniscript::from_str(&format!("pk({})", k)).map(Arc::new).map_err(|e: miniscript::Error| e.to_string()))
+                let leaves: Vec<Arc<Miniscript<PublicKey, Tap>>> = leaf_full.iter()
+                    .map(|k| Miniscript::from_str(&k.text()).map(Arc::new).map_err(|e: miniscript::Error| e.to_string()))
                     .collect::<Result<_, _>>()?;
                 Some(keyed_tree(s, &leaves, &mut 0).map_err(|_| "combine".to_string())?)
             }
@@ -793,7 +937,7 @@ fn run_fullkey_case(out: &mut Out, keys: &Keys, shape: Option<&Shape>, ik: u32, 
 
 /// `Tr<DescriptorPublicKey>` over an xpub with wildcards, derived at `index` two ways
 #[allow(deprecated)]
-fn run_xpub_case(out: &mut Out, keys: &Keys, shape: Option<&Shape>, seed: &[u8; 32], index: u32, origin: bool, class: &str) {
+fn run_xpub_case(out: &mut Out, keys: &Keys, shape: Option<&Shape>, seed: &[u8; 32], index: u32, origin: bool, tmpls: &[usize], class: &str) {
     use miniscript::bitcoin::bip32::{ChildNumber, Xpriv, Xpub};
     use miniscript::{DefiniteDescriptorKey, DescriptorPublicKey};
     let secp = &keys.secp;
@@ -808,11 +952,15 @@ fn run_xpub_case(out: &mut Out, keys: &Keys, shape: Option<&Shape>, seed: &[u8; 
         xpub.derive_pub(secp, &[ChildNumber::Normal { index: j as u32 }, ChildNumber::Normal { index }]).unwrap().public_key.serialize().to_vec()
     };
     let ik_full = child(0);
-    let leaf_full: Vec<Vec<u8>> = (0..n).map(|j| child(j + 1)).collect();
+    let leaf_full: Vec<KLeaf> = (0..n).map(|j| {
+        let (tmpl, nk) = KTEMPLATES[tmpls.get(j).copied().unwrap_or(0) % 4];
+        let js: Vec<usize> = if nk == 2 { vec![j + 1, j + 51] } else { vec![j + 1] };
+        KLeaf { tmpl, key_texts: js.iter().map(|x| keyexpr(*x)).collect(), keys: js.iter().map(|x| child(*x)).collect() }
+    }).collect();
     let mut text = format!("tr({}", keyexpr(0));
     if let Some(s) = shape {
         text.push(',');
-        keyed_text(s, &(0..n).map(|j| keyexpr(j + 1)).collect::<Vec<_>>(), &mut 0, &mut text);
+        keyed_text(s, &leaf_full.iter().map(|k| k.text()).collect::<Vec<_>>(), &mut 0, &mut text);
     }
     text.push(')');
     let pos_text = shape.map(|s| s.to_text()).unwrap_or("-".into());
@@ -832,6 +980,56 @@ fn run_xpub_case(out: &mut Out, keys: &Keys, shape: Option<&Shape>, seed: &[u8; 
         Ok(Ok(Descriptor::Tr(tr))) => {
             let tr: Tr<DefiniteDescriptorKey> = tr;
             run_keyed(out, keys, &format!("{}-definite", class), &tr, shape, &ik_full, &leaf_full);
+        }
+        other => { out.line(&format!("J rustoracle keyed-definite {}:{} fail:{}", label, pos_text, match other { Err(_) => "PANIC".to_string(), Ok(Err(e)) => e.to_string().replace(' ', "_"), _ => "not_tr".into() }), "ok"); }
+    }
+}
+
+/// definite keys that do NOT come from a wildcard: a full key with origin, a bare x-only key, an
+/// xpub with a fixed path — `into_definite()` — `Tr<DefiniteDescriptorKey>` (keys resolved inside
+/// `spend_info` by `DefiniteDescriptorKey::derive_public_key`'s Single / non-wildcard arms)
+fn run_single_definite_case(out: &mut Out, keys: &Keys, shape: &Shape, seed: &[u8; 32], variant: usize, tmpls: &[usize]) {
+    use miniscript::bitcoin::bip32::{ChildNumber, Xpriv, Xpub};
+    use miniscript::DescriptorPublicKey;
+    let secp = &keys.secp;
+    let xpub = Xpub::from_priv(secp, &Xpriv::new_master(Network::Bitcoin, seed).unwrap());
+    let n = shape.n_leaves();
+    // key slot j (0 = internal) cycles through the four non-wildcard key forms
+    let slot = |j: usize| -> (String, Vec<u8>) {
+        let id = ((variant * 13 + j * 7) % 100) as u32;
+        match (j + variant) % 4 {
+            0 => { let k = crate::ast::full_key(id); (format!("[{}/86h]{}", xpub.fingerprint(), k), k.to_bytes()) }
+            1 => { let k = crate::ast::xonly_key(id); (k.to_string(), k.serialize().to_vec()) }
+            2 => { let path = [ChildNumber::Normal { index: 3 }, ChildNumber::Normal { index: j as u32 }];
+                   (format!("{}/3/{}", xpub, j), xpub.derive_pub(secp, &path).unwrap().public_key.serialize().to_vec()) }
+            _ => { let k = crate::ast::full_key(id); (k.to_string(), k.to_bytes()) }
+        }
+    };
+    let (ik_text, ik_full) = slot(0);
+    let leaf_full: Vec<KLeaf> = (0..n).map(|j| {
+        let (tmpl, nk) = KTEMPLATES[tmpls.get(j).copied().unwrap_or(0) % 4];
+        let js: Vec<usize> = if nk == 2 { vec![2 * j + 1, 2 * j + 2] } else { vec![2 * j + 1] };
+        let sl: Vec<(String, Vec<u8>)> = js.iter().map(|x| slot(*x)).collect();
+        KLeaf { tmpl, key_texts: sl.iter().map(|x| x.0.clone()).collect(), keys: sl.iter().map(|x| x.1.clone()).collect() }
+    }).collect();
+    let mut text = format!("tr({},", ik_text);
+    keyed_text(shape, &leaf_full.iter().map(|k| k.text()).collect::<Vec<_>>(), &mut 0, &mut text);
+    text.push(')');
+    let pos_text = shape.to_text();
+    let label = format!("single-definite:v{}", variant);
+    let desc = match catch_unwind(AssertUnwindSafe(|| Descriptor::<DescriptorPublicKey>::from_str(&text))) {
+        Ok(Ok(d)) => d,
+        Ok(Err(e)) => { out.line(&format!("J rustoracle keyed-accepts {}:{} fail:{}", label, pos_text, e.to_string().replace(' ', "_")), "ok"); return; }
+        Err(_) => { out.line(&format!("J rustoracle keyed-accepts {}:{} fail:PANIC", label, pos_text), "ok"); return; }
+    };
+    match catch_unwind(AssertUnwindSafe(|| desc.into_definite())) {
+        Ok(Ok(Descriptor::Tr(tr))) => {
+            run_keyed(out, keys, "single-definite", &tr, Some(shape), &ik_full, &leaf_full);
+            // and the eager conversion of the same descriptor to plain keys
+            match catch_unwind(AssertUnwindSafe(|| Descriptor::Tr(tr.clone()).derived_descriptor(secp))) {
+                Ok(Descriptor::Tr(tr2)) => run_keyed(out, keys, "single-definite-derived", &tr2, Some(shape), &ik_full, &leaf_full),
+                _ => out.line(&format!("J rustoracle keyed-derive {}:{} fail:derived_descriptor", label, pos_text), "ok"),
+            }
         }
         other => { out.line(&format!("J rustoracle keyed-definite {}:{} fail:{}", label, pos_text, match other { Err(_) => "PANIC".to_string(), Ok(Err(e)) => e.to_string().replace(' ', "_"), _ => "not_tr".into() }), "ok"); }
     }
@@ -970,7 +1168,7 @@ pub fn run(out: &mut Out, thorough: bool, seed: u64) {
     }
     // 4d. full 33-byte keys (both parities: shared key table 0..9) as internal key and in leaves
     {
-        for ik in 0..10u32 { run_fullkey_case(out, &keys, None, ik, &[], "fullkey-keyonly"); }
+        for ik in 0..10u32 { run_fullkey_case(out, &keys, None, ik, &[], &[], "fullkey-keyonly"); }
         let max_n = if thorough { 6 } else { 4 };
         for ik in 0..10u32 {
             for n in 1..=max_n {
@@ -979,7 +1177,7 @@ pub fn run(out: &mut Out, thorough: bool, seed: u64) {
                     let mut ids: Vec<u32> = (0..n as u32).map(|p| (ik + 1 + p) % 10).collect();
                     // ... except that sometimes a leaf reuses the internal key or another leaf's key
                     match rng.below(4) { 0 => ids[0] = ik, 1 if n >= 2 => ids[n - 1] = ids[0], _ => {} }
-                    run_fullkey_case(out, &keys, Some(&s), ik, &ids, "fullkey");
+                    run_fullkey_case(out, &keys, Some(&s), ik, &ids, &[], "fullkey");
                 }
             }
         }
@@ -987,9 +1185,21 @@ pub fn run(out: &mut Out, thorough: bool, seed: u64) {
             let n = 5 + rng.below(20);
             let s = random_shape(n, &mut rng);
             let ids: Vec<u32> = (0..n).map(|_| rng.below(100) as u32).collect();
-            run_fullkey_case(out, &keys, Some(&s), rng.below(100) as u32, &ids, "fullkey-random");
+            let tm: Vec<usize> = (0..n).map(|_| rng.below(4)).collect();
+            run_fullkey_case(out, &keys, Some(&s), rng.below(100) as u32, &ids, &tm, "fullkey-random");
         }
-        run_fullkey_case(out, &keys, Some(&right_comb(128)), 0, &(0..129).map(|i| (i % 100) as u32).collect::<Vec<_>>(), "fullkey-comb128");
+        run_fullkey_case(out, &keys, Some(&right_comb(128)), 0, &(0..129).map(|i| (i % 100) as u32).collect::<Vec<_>>(), &[], "fullkey-comb128");
+        // leaves that are not pk(): multi_a, sortedmulti_a (keys of mixed parity whose x-only order
+        // differs from the order of the 33-byte encodings), and_v(v:pkh(K),older(1))
+        for ik in 0..10u32 {
+            for n in 1..=(if thorough { 5 } else { 3 }) {
+                for s in all_shapes(n, &mut memo) {
+                    let ids: Vec<u32> = (0..n as u32).map(|p| (ik + 1 + p) % 10).collect();
+                    let tm: Vec<usize> = (0..n).map(|p| 1 + (ik as usize + p) % 3).collect();
+                    run_fullkey_case(out, &keys, Some(&s), ik, &ids, &tm, "fullkey-templates");
+                }
+            }
+        }
     }
     // 4e. xpub-derived keys (wildcards), derived two ways
     {
@@ -998,15 +1208,108 @@ pub fn run(out: &mut Out, thorough: bool, seed: u64) {
             let mut sd = [0u8; 32];
             for (i, b) in sd.iter_mut().enumerate() { *b = (rng.next() >> (i % 8)) as u8; }
             let idxs: Vec<u32> = vec![0, 1, 1 + rng.below(1000) as u32, (1u32 << 31) - 1];
-            run_xpub_case(out, &keys, None, &sd, idxs[k % 4], k % 2 == 0, "xpub-keyonly");
+            run_xpub_case(out, &keys, None, &sd, idxs[k % 4], k % 2 == 0, &[], "xpub-keyonly");
             for n in 1..=(if thorough { 5 } else { 4 }) {
                 for s in all_shapes(n, &mut memo) {
                     let idx = idxs[rng.below(4)];
-                    run_xpub_case(out, &keys, Some(&s), &sd, idx, rng.coin(), "xpub");
+                    let tm: Vec<usize> = if rng.coin() { vec![] } else { (0..n).map(|_| rng.below(4)).collect() };
+                    run_xpub_case(out, &keys, Some(&s), &sd, idx, rng.coin(), &tm, "xpub");
                 }
             }
             let s = random_shape(6 + rng.below(10), &mut rng);
-            run_xpub_case(out, &keys, Some(&s), &sd, idxs[2], false, "xpub-random");
+            let tm: Vec<usize> = (0..s.n_leaves()).map(|_| rng.below(4)).collect();
+            run_xpub_case(out, &keys, Some(&s), &sd, idxs[2], false, &tm, "xpub-random");
+            // 4f. definite keys that are not wildcards (full key with origin, x-only key, fixed-path xpub)
+            for v in 0..(if thorough { 12 } else { 4 }) {
+                let n = 1 + (v + k) % 4;
+                let shapes = all_shapes(n, &mut memo);
+                let s = shapes[rng.below(shapes.len())].clone();
+                let tm: Vec<usize> = if v % 2 == 0 { vec![] } else { (0..n).map(|p| (v + p) % 4).collect() };
+                run_single_definite_case(out, &keys, &s, &sd, v + 4 * k, &tm);
+            }
+        }
+    }
+    // 4g. adjacent depth-128 pairs: {{a,b},{c,d}} (and {{a,b},c}, {a,{b,c}}) at the bottom of a
+    // depth-126 spine, so that the builder's depth-128 flag toggles twice with no lower level
+    // completing in between; left, right and zig-zag spines; both construction routes
+    {
+        let quad = || node(node(Leaf, Leaf), node(Leaf, Leaf));
+        let bottoms: Vec<Shape> = vec![quad(), node(node(Leaf, Leaf), Leaf), node(Leaf, node(Leaf, Leaf))];
+        for (bi, b) in bottoms.iter().enumerate() {
+            for side in 0..3 {
+                let mut s = b.clone();
+                for lvl in 0..126 {
+                    let left = match side { 0 => true, 1 => false, _ => lvl % 2 == 0 };
+                    s = if left { node(s, Leaf) } else { node(Leaf, s) };
+                }
+                assert_eq!(s.height(), 128);
+                let mut c = make_case(s, &mut keys, &mut rng, false);
+                c.force_commit = bi == 0 && side < 2 && thorough;
+                run_case(out, &c, &keys, "adjacent-128-pairs");
+            }
+        }
+        // and one level too deep: the same bottoms under a depth-127 spine are rejected
+        let mut s = quad();
+        for _ in 0..127 { s = node(s, Leaf); }
+        let c = make_case(s, &mut keys, &mut rng, false);
+        run_too_deep(out, &c);
+        // perfect trees with 16..128 leaves
+        fn perfect(k: usize) -> Shape { if k == 0 { Leaf } else { node(perfect(k - 1), perfect(k - 1)) } }
+        for k in 4..=(if thorough { 8 } else { 7 }) {
+            let c = make_case(perfect(k), &mut keys, &mut rng, k % 2 == 1);
+            run_case(out, &c, &keys, "perfect");
+        }
+    }
+    // 4h. the same script at depths 1 and 5 (and 2 and 7), in both orders: the satisfier must pick the
+    // shallow copy's control block (J trwitnessmin)
+    for (shallow_first, deep) in [(true, 5usize), (false, 5), (true, 7), (false, 7)] {
+        let chain = if shallow_first { right_comb(deep) } else { left_comb(deep) };
+        let n = chain.n_leaves();
+        // right comb: position 0 is at depth 1, the last two at depth `deep`; left comb: mirrored
+        let mut labels: Vec<usize> = (0..n).collect();
+        if shallow_first { labels[n - 1] = 0; } else { labels[n - 1] = 0; labels[0] = 0; for (i, l) in labels.iter_mut().enumerate().skip(1).take(n - 2) { *l = i; } }
+        // gap-free relabelling
+        let mut map = HashMap::new(); for x in labels.iter_mut() { let k = map.len(); *x = *map.entry(*x).or_insert(k); }
+        let c = make_dup_case(chain, labels, &mut keys, &mut rng, false);
+        run_case(out, &c, &keys, "same-script-two-depths");
+    }
+    // 4i. leaves from the shared dimension corpus (all hash kinds, both lock units, distinct same-unit
+    // locks, thresholds with lock children, wide multi_a / sortedmulti_a, raw key hashes)
+    {
+        let mut frags: Vec<Arc<Ms>> = vec![];      // accepted by Tr::from_str and Descriptor::from_str
+        let mut tr_only: Vec<Arc<Ms>> = vec![];    // accepted by Tr::from_str, refused by Descriptor::from_str
+        let mut seen = std::collections::HashSet::new();
+        for nd in crate::ast::dimension_corpus(crate::ast::CtxK::Tap) {
+            let ms: Ms = match crate::ast::to_ms::<Pk, Tap>(&nd) { Ok(m) => m, Err(_) => { out.count("corpus-fragment-not-a-tap-miniscript"); continue; } };
+            let alone = format!("tr({},{})", keys.key(IK_BASE), ms);
+            if !seen.insert(ms.encode()) { continue; }
+            match (Tr::<Pk>::from_str(&alone), Descriptor::<Pk>::from_str(&alone)) {
+                (Ok(_), Ok(_)) => frags.push(Arc::new(ms)),
+                (Ok(_), Err(e)) => {
+                    // beyond this property's statement (leaf sanity policy differs between the two parsers)
+                    out.count("observation: leaf accepted by Tr::from_str but refused by Descriptor::from_str");
+                    if tr_only.is_empty() { out.note("observation_tr_only_leaf", format!("{} : {}", alone, e)); }
+                    tr_only.push(Arc::new(ms));
+                }
+                (Err(_), _) => out.count("observation: corpus fragment refused as a tr() leaf"),
+            }
+        }
+        out.note("corpus_leaves", format!("{} fragments of ast::dimension_corpus(Tap) usable as leaves, {} more through Tr::from_str only", frags.len(), tr_only.len()));
+        for (group, strict) in [(frags, true), (tr_only, false)] {
+            if group.is_empty() { continue; }
+            // all of them in one random tree, then in chunks of up to 6 over sampled small shapes
+            let s = random_shape(group.len(), &mut rng);
+            if s.height() <= 128 { let mut c = make_case_leaves(s, group.clone(), &mut keys, &mut rng); c.desc_reparse = strict; run_case(out, &c, &keys, "corpus-leaves"); }
+            let mut i = 0;
+            while i < group.len() {
+                let n = (1 + rng.below(6)).min(group.len() - i);
+                let shapes = all_shapes(n, &mut memo);
+                let s = shapes[rng.below(shapes.len())].clone();
+                let mut c = make_case_leaves(s, group[i..i + n].to_vec(), &mut keys, &mut rng);
+                c.desc_reparse = strict;
+                run_case(out, &c, &keys, "corpus-leaves");
+                i += n;
+            }
         }
     }
     // 5. too deep: must be rejected
